@@ -77,6 +77,17 @@ theorem unguarded_writes_only_at_start : Gen.Locks.unguardedWrites =
     ["server.GCAServer.launchAPI:httpPort", "server.GCAServer.launchListenForSyncRequests:tcpPort",
      "server.GCAServer.launchUDPServer:udpPort"] := by decide
 
+/-- README naming discipline: a method called `static*` works on what never changes after construction, so
+it may run without any lock next to anything else (the history store is read by the reporting loop and by
+every running sync round at once). The only other fields such methods mention are the event logger (which
+locks for itself), the two calibration values (set once while the client is built) and `shortID`, which
+`staticSendReport`/`staticServerSync` read without the mutex while a migration may write it - a known,
+benign exception that is pinned here so that no further one appears (a shared scratch buffer, a cache). -/
+theorem static_methods_use_static_fields : Gen.Locks.staticFieldUses =
+    ["client.Client.staticReadEnergyFile:EventLog", "client.Client.staticReadEnergyFile:energyDivider",
+     "client.Client.staticReadEnergyFile:energyMultiplier", "client.Client.staticSendReport:EventLog",
+     "client.Client.staticSendReport:shortID", "client.Client.staticServerSync:shortID"] := by decide
+
 /-- `RateLimiter.Allow` (clock read included), `registerGCA`, the datagram handler and
 `managedAuthorizeEquipment` are single critical sections: concurrent calls are sequences. -/
 theorem single_sections :
